@@ -1,4 +1,24 @@
 import PcbV.Drv.MbfCommon
+import PcbV.Drv.C05x
+/-
+  C05 driver: `v …` = values.py level with type promotion (Drv/C05x); `mul` / `mulold` at
+  the Float level use the repaired / the original `imul`; everything else is the shared
+  MBF protocol (Drv/MbfCommon).
+-/
 namespace PcbV.Drv.C05
-def handle : List String → String := PcbV.Drv.MbfCommon.handle
+open PcbV PcbV.Mbf PcbV.Drv.MbfCommon
+
+def mulWith (op : Fmt → F → F → FR) (fs a b : String) : String :=
+  match fmtOf fs with
+  | none => "bad-op"
+  | some f =>
+    match parse f a, parse f b with
+    | some x, some y => showFR f (op f x y)
+    | _, _ => "bad-op"
+
+def handle : List String → String
+  | "v" :: rest => PcbV.Drv.C05x.handle rest
+  | ["mul", fs, a, b] => mulWith imulFixed fs a b
+  | ["mulold", fs, a, b] => mulWith imul fs a b
+  | req => PcbV.Drv.MbfCommon.handle req
 end PcbV.Drv.C05
